@@ -1390,12 +1390,32 @@ func (e *BigMessage) ReadAll() ([]byte, error) {
 	if e.Client.bigMessage != e {
 		return nil, errors.New("mqtt: read window expired for a big message")
 	}
-	e.Client.bigMessage = nil
+	c := e.Client
+	c.bigMessage = nil
+
+	if c.PauseTimeout != 0 {
+		// Abandon timer to prevent waking up the system for no good reason.
+		defer c.readConn.SetReadDeadline(time.Time{})
+	}
 
 	message := make([]byte, e.Size)
-	_, err := io.ReadFull(e.Client.bufr, message)
-	if err != nil {
-		return nil, err
+	for n := 0; n < len(message); {
+		if c.bufr.Buffered() == 0 && c.PauseTimeout != 0 {
+			err := c.readConn.SetReadDeadline(time.Now().Add(c.PauseTimeout))
+			if err != nil {
+				return nil, err // deemed critical
+			}
+		}
+		more, err := c.bufr.Read(message[n:])
+		n += more
+		if err != nil && n < len(message) {
+			if errors.Is(err, io.EOF) {
+				err = io.ErrUnexpectedEOF
+			}
+			// The stream position is lost.
+			c.readConn.Close()
+			return nil, err
+		}
 	}
 	return message, nil
 }
